@@ -83,6 +83,7 @@ def collect_sites(prog):
                 walk_expr(s, 1, env, ctx + ("while-cond",), fi, ret); walk_block(s[2], env, ctx + ("loop",), fi, ret)
             elif k == "for":
                 walk_expr(s, 3, env, ctx + ("for-lo",), fi, ret); walk_expr(s, 4, env, ctx + ("for-hi",), fi, ret)
+                if len(s) > 7 and s[7] is not None: walk_expr(s, 7, env, ctx + ("for-step",), fi, ret)
                 e2 = dict(env); e2[s[1]] = s[2]
                 walk_block(s[5], e2, ctx + ("for-body",), fi, ret)
             elif k == "match":
@@ -120,7 +121,9 @@ def mutable(prog):
         elif k == "cassignf": s[4] = me(s[4])
         elif k == "if": s[1] = me(s[1]); s[2] = mb(s[2]); s[3] = mb(s[3])
         elif k == "while": s[1] = me(s[1]); s[2] = mb(s[2])
-        elif k == "for": s[3] = me(s[3]); s[4] = me(s[4]); s[5] = mb(s[5])
+        elif k == "for":
+            s[3] = me(s[3]); s[4] = me(s[4]); s[5] = mb(s[5])
+            if len(s) > 7 and s[7] is not None: s[7] = me(s[7])
         elif k == "match": s[1] = me(s[1]); s[3] = [[v, mb(b)] for v, b in s[3]]; s[4] = mb(s[4]) if s[4] is not None else None
         elif k == "return" and s[1] is not None: s[1] = me(s[1])
         elif k == "print": s[1] = [me(a) for a in s[1]]
